@@ -1,3 +1,3 @@
 SPECIFICATION Spec
-INVARIANTS C06Strict C06Exact C06Other
+INVARIANTS C06Strict C06Exact C06Other C06InnerListLength
 CHECK_DEADLOCK FALSE
